@@ -1528,4 +1528,7 @@ Lemma old_bound_refuted :
   exists m, fold_left (fun om kv => match om with Some m => option_map fst (map_set_item m (fst kv) (snd kv)) | None => None end)
                       (combine ks [0; 1; 2; 3]) (Some empty_map) = Some m /\
   exists m', map_del_shift_item_old m [65] = Some (m', 0) /\ map_get_item m' [66] = Some 1.
-Proof. vm_compute. eexists. split; [reflexivity|]. eexists. split; reflexivity. Qed.
+Proof.
+  cbv zeta. eexists. split; [vm_compute; reflexivity|].
+  eexists. split; [vm_compute; reflexivity|]. vm_compute. reflexivity.
+Qed.
